@@ -14,6 +14,8 @@ certificates:
   lightened by a greedy descent over the generators.
 * exhaustive: no data; the Lean checker enumerates every Pauli of weight < d.  Chosen when the
   number of candidates is within the kernel budget.
+* css: no data; for CSS codes the Lean checker enumerates the pure X-type and pure Z-type
+  operators of weight < d only.
 
 Deterministic; no caches.
 """
@@ -309,8 +311,18 @@ def verify_packing_flat(inst: Inst, flat: List[int]) -> bool:
     return len(flat) == d * 2 * inst.k and verify_packing(inst, [flat[i:i + d] for i in range(0, len(flat), d)])
 
 
+def is_css(inst: Inst) -> bool:
+    lo = (1 << inst.n) - 1
+    return all((g & lo) == 0 or (g >> inst.n) == 0 for g in inst.H)
+
+
+def css_count(n: int, d: int) -> int:
+    """number of pure X-type plus pure Z-type operators of weight < d"""
+    return 2 * sum(comb(n, j) for j in range(0, d))
+
+
 def find_cert(inst: Inst, budget: int = 0):
-    """('packing', flat list of selection masks) | ('exhaustive', None) | None.
+    """('packing', flat list of selection masks) | ('exhaustive', None) | ('css', None) | None.
     `budget`: largest number of candidates the exhaustive check may enumerate."""
     budget = budget or EXH_KERNEL_BUDGET
     cnt = exhaustive_count(inst.n, inst.d)
@@ -321,6 +333,8 @@ def find_cert(inst: Inst, budget: int = 0):
     sels = packing_cert(inst)
     if sels is not None and verify_packing(inst, sels):
         return ('packing', [c for ss in sels for c in ss])
+    if is_css(inst) and css_count(inst.n, inst.d) <= budget:
+        return ('css', None)
     if cnt <= budget:
         return ('exhaustive', None)
     return None
@@ -335,6 +349,8 @@ def lean_list(xs) -> str:
 def cert_lean(cert) -> str:
     if cert[0] == 'exhaustive':
         return '.exhaustive'
+    if cert[0] == 'css':
+        return '.exhaustiveCSS'
     return '.packing ' + lean_list(cert[1])
 
 
